@@ -1,5 +1,6 @@
 //! C15: BigInt<N> operations, N = 1..13.
-use crate::util::*;
+#![allow(dead_code, deprecated)]
+use arkharness::util::*;
 use ark_ff::{biginteger::arithmetic::{find_naf, find_relaxed_naf}, BigInt, BigInteger, BitIteratorBE, BitIteratorLE, signed_mod_reduction};
 
 fn b(x: bool) -> &'static str { if x { "1" } else { "0" } }
@@ -108,4 +109,12 @@ pub fn run(rng: &mut Rng, thorough: bool, out: &mut Out) {
         out.line(&format!("C15 naf 2 {}", xh), &hex_list_i64(&find_naf(&x.0).iter().map(|d| *d as i64).collect::<Vec<_>>()));
         for w in [2usize, 3, 4, 5, 6] { out.line(&format!("C15 wnaf 2 {} {:x}", xh, w), &hex_list_i64(&x.find_wnaf(w).unwrap())); }
     }
+}
+
+fn main() {
+    let a = arkharness::args();
+    let mut rng = Rng::new(a.seed);
+    let mut out = Out::new();
+    run(&mut rng, a.thorough, &mut out);
+    out.flush();
 }
